@@ -130,8 +130,8 @@ func (m *model) badCandidate(p int) bool {
 	return p > 0 && p < m.n && m.opp[p] && (m.inside[p] || !m.graph[p])
 }
 
-// intraClusterCandidate tells whether a badCandidate lies in [from,to).
-func (m *model) intraClusterCandidate(from, to int) bool {
+// unusableCandidateIn tells whether a badCandidate lies in [from,to).
+func (m *model) unusableCandidateIn(from, to int) bool {
 	for p := from; p < to && p <= m.n; p++ {
 		if m.badCandidate(p) {
 			return true
@@ -146,7 +146,7 @@ func (m *model) intraClusterCandidate(from, to int) bool {
 func (m *model) nearBadCandidate(prevStart, e int) bool {
 	to := m.nextValidOppOrEnd(e)
 	to = m.nextValidOppOrEnd(to)
-	return m.intraClusterCandidate(prevStart, to+1)
+	return m.unusableCandidateIn(prevStart, to+1)
 }
 
 // ---------------------------------------------------------------------------------------------
@@ -387,7 +387,7 @@ func (m *model) classifyGlyphDiff(got, w *shaping.Glyph, vertical bool) diffKind
 // ---------------------------------------------------------------------------------------------
 
 type c03info struct {
-	nontrivial                                  bool
+	nontrivial                                   bool
 	atMandatory, atOptional, inWord, nearInvalid int
 }
 
@@ -423,7 +423,7 @@ func (m *model) checkC03(res *result, p *parsed, rep *reporter) (info c03info) {
 		default:
 			info.inWord++
 		}
-		if m.intraClusterCandidate(s+1, e+1) || m.intraClusterCandidate(e, m.nextCandidateOrEnd(e)) {
+		if m.unusableCandidateIn(s+1, e+1) || m.unusableCandidateIn(e, m.nextCandidateOrEnd(e)) {
 			info.nearInvalid++
 		}
 		if e == l.s {
@@ -543,7 +543,7 @@ func (m *model) checkC04(res *result, p *parsed, rep *reporter) (info c04info) {
 	slotBurned := func() string {
 		// matcher: an empty line consumed one of the k permitted lines: seen directly through the
 		// iterative API; WrapParagraph drops empty lines, there the structural condition alone
-		if cfg.BreakPolicy == shaping.Never || !m.intraClusterCandidate(0, m.n) {
+		if cfg.BreakPolicy == shaping.Never || !m.unusableCandidateIn(0, m.n) {
 			return ""
 		}
 		if res.api == "iterative" && len(p.nilCalls) == 0 {
